@@ -216,11 +216,13 @@ func run(c *mc.Ctx, r *mc.Result) {
 		}
 		r.Bounds["pool."+pd.name] = fmt.Sprintf("%d patterns x {plain, ignore-slash}, subsets<=%d (+%d fixed), %d paths x %d hosts; served requests measured one by one and as one interleaved cycle", len(pd.patterns), pd.k, len(pd.always), len(pd.paths), len(pd.hosts))
 		stopped := false
+		mine := 0
 		gen.Subsets(len(specs), pd.k, func(i int, idx []int) {
 			if !c.Mine(i) || stopped {
 				return
 			}
-			if i&15 == 0 {
+			mine++
+			if mine&15 == 0 { // counted per worker: i itself is congruent to the shard number
 				if c.Expired() {
 					stopped = true
 					r.NotExhaustive = append(r.NotExhaustive, fmt.Sprintf("pool %s: time guard at subset #%d", pd.name, i))
